@@ -6,6 +6,8 @@ R3.2  wire keys: every property gets a field_mappings entry; both Meta maps are 
 R3.3  hook pairs are inverse (b64decode <-> b64encode, fromisoformat <-> isoformat, UUID <-> str)
 R3.4  rename plumbing: structure fn reads Meta.key_transform_with_load, unstructure fn reads ..._with_dump, both pass
       override(rename=...) for every field
+R3.6  field names are de-duplicated soundly (test / rename until unused / record): distinct wire keys never share one
+      Python field, so the Meta maps are bijections                                          [pattern shared with C20]
 R3.5  recursion over field types: every field of every dataclass gets its nested types registered (no skip)
 """
 from __future__ import annotations
@@ -46,6 +48,17 @@ def run(repo: Repo, rep: Report, tier: str) -> None:
             else:
                 rep.violation("R3.2", sub, f"{gen.fq}|per-property|{label[:20]}|{cfg.describe_path(w or [])}",
                               f"a property can pass through the loop without this step ({cfg.describe_path(w or [])}): the field or its wire key is lost", gen.loc(lp))
+    # distinct field names are what makes the two Meta maps mutually inverse bijections
+    from rules.c20 import _dedup_site
+
+    class _R:
+        def ok(self, rule, *a, **k):
+            rep.ok("R3.6", *a, **k)
+
+        def violation(self, rule, *a, **k):
+            rep.violation("R3.6", *a, **k)
+
+    _dedup_site(gen, "dataclass fields", "seen_field_names", _R())
     rd = repo.func("core.writers.python_construct_renderer:PythonConstructRenderer.render_dataclass")
     floops = sorted([n for n in own_nodes(rd.node) if isinstance(n, ast.For) and "field_mappings.items()" in norm(n.iter)], key=lambda n: n.lineno)
     texts = []
